@@ -169,3 +169,41 @@ def effect_reason(c, transfer, size):
     if transfer.startswith('down-'):
         return H.dest_content_reason(c, transfer[len('down-'):], size)
     return None
+
+
+def nsfaulted(prefix, transfer, size, thr, chunk, io, fault_at, phase, p1, k1):
+    """the single-fault family of harness/faults.py under nested schedules: nothing runs until a blocking primitive
+    or the top-level loop starts it (laziest schedule), plus one nested start at a symbolic scheduling point"""
+    S = ns.Sched(nest=[(p1, k1)] if p1 >= 0 else [])
+    c = build(transfer, size, thr, chunk, io, S, fault_at=fault_at, phase=phase,
+              limits=dict(max_request_concurrency=2))
+    v = go(c, S)
+    if v:
+        return v if v == '~' or prefix == 'c04' else None
+    finish(c)
+    return FT.pick(FT.judge(c, transfer, size, thr), prefix)
+
+
+_UP2 = ['1 <= thr <= size', '5 * 1024 ** 2 <= chunk <= 5 * 1024 ** 3', 'chunk < size <= 2 * chunk', 'io == 1']
+_DN2 = ['1 <= thr <= size', '1 <= chunk', 'chunk < size <= 2 * chunk', 'chunk <= io']
+NS_PARAMS = 'size: int, thr: int, chunk: int, io: int, fault_at: int, phase: int, p1: int, k1: int'
+
+
+def ns_fault_obligations(prefix, pid, transfers):
+    obs = []
+    for tr in transfers:
+        shape = _DN2 if tr.startswith('down') else _UP2
+        rng = ['%d <= fault_at <= %d' % (a, a + 5) for a in range(0, 30, 6)]
+        obs.append(dict(
+            id='%s.ns-%s' % (pid, tr), impl='nsfaulted', params=NS_PARAMS, cases=[(prefix, tr)],
+            pre=shape + ['0 <= phase <= 1', '-1 <= fault_at <= 30', '-1 <= p1 <= 50', '0 <= k1 <= 1'],
+            splits=[[r, 'p1 == -1', 'k1 == 0'] for r in rng],
+            splits_thorough=[[r, q] for r in rng for q in ('p1 <= 15', '15 < p1 <= 30', '30 < p1')],
+            timeout=(170, 1500),
+            bounds='2-part transfer over model executors: one fault at a symbolic environment call (0..29), before / '
+                   'after the effect; laziest schedule (queued tasks start only when something blocks on them), '
+                   'thorough: plus one nested start at a symbolic scheduling point',
+            encodes=['SubmissionTask._main (failure path)', '_wait_for_all_submitted_futures_to_complete',
+                     'TransferCoordinator.submit / associated futures', 'failure cleanups'],
+            assumptions=['S1', 'S2', 'nested (LIFO) schedules only', 'model threading primitives']))
+    return obs
